@@ -278,7 +278,9 @@ def gen_blocks(rng, o, depth, n, in_quote=False):
 def gen_block(rng, o, depth, in_quote, prev):
     r = rng.random()
     if depth < 4 and r < 0.13:
-        return N('quote', kids=gen_blocks(rng, o, depth + 1, rng.randint(1, 3), True), sp=rng.random() < 0.8)
+        # one quote in eight OPENS with 1-3 empty marker lines (`>` alone): still one quote, its blocks start later
+        return N('quote', kids=gen_blocks(rng, o, depth + 1, rng.randint(1, 3), True), sp=rng.random() < 0.8,
+                 lead=rng.choice([0] * 14 + [1, 2, 2, 3]))
     if depth < 4 and r < 0.30:
         ordered = rng.random() < 0.4
         tight = rng.random() < 0.5
@@ -312,7 +314,8 @@ def gen_block(rng, o, depth, in_quote, prev):
         return N('list', ordered=ordered, start=rng.choice([1, 1, 2, 7, 10, 0, 999999997]) if ordered else None, tight=tight, items=items,
                  bullet=bullet, delim=delim, pad=rng.randint(1, 4), indent=rng.choice([0, 0, 0, 1, 2, 3]))
     if r < 0.37:
-        return N('atx', level=rng.randint(1, 6), kids=gen_inlines(rng, o, n=rng.randint(1, 4), allow_break=False),
+        # one in twelve ATX headings is EMPTY (spec 4.2: "ATX headings can be empty"): `#`, `# `, `## ##`
+        return N('atx', level=rng.randint(1, 6), kids=gen_inlines(rng, o, n=rng.randint(1, 4), allow_break=False) if rng.random() > 0.085 else [],
                  closing=rng.choice([0, 0, 1, 3]), indent=rng.randint(0, 3))
     if r < 0.42 and (o.setext_in_quote or not in_quote):
         return N('setext', level=rng.choice([1, 2]), kids=gen_inlines(rng, o, n=rng.randint(1, 5), allow_break=False), ul=rng.randint(1, 6))
@@ -384,6 +387,8 @@ class Writer:
         if b.kind == 'para':
             return self.para_lines(b.kids)
         if b.kind == 'atx':
+            if not b.kids:
+                return [' ' * b.indent + '#' * b.level + rng.choice(['', '', ' ', (' ' + '#' * b.closing) if b.closing else ''])]
             s = ' ' * b.indent + '#' * b.level + ' ' + write_inlines(rng, b.kids)
             if b.closing:
                 s += ' ' + '#' * b.closing
@@ -425,7 +430,7 @@ class Writer:
                 prevline = out[-2]
                 if prevline not in ('>',) and body and not body[0] in '#>-+*=`~|<[0123456789 ' and len(inner) >= 2 and inner[-2] != '':
                     out[-1] = body
-            return out
+            return [rng.choice(['>', '>', '> ']) for _ in range(getattr(b, 'lead', 0))] + out
         if b.kind == 'list':
             out = []
             any_blank = False
@@ -500,7 +505,7 @@ def assign_lines(bs, base):
     for b in bs:
         b.line = base + b.rel
         if b.kind == 'quote':
-            assign_lines(b.kids, b.line)
+            assign_lines(b.kids, b.line + getattr(b, 'lead', 0))
         elif b.kind == 'list':
             for it in b.items:
                 it.line = b.line + it.rel
